@@ -193,7 +193,7 @@ def _constant_prop_pass(block, silence_unexpected_net_warnings=False):
         '&': lambda left, right: left & right,
         '|': lambda left, right: left | right,
         '^': lambda left, right: left ^ right,
-        'n': lambda left, right: 1 - (left & right),
+        'n': lambda left, right: ~(left & right),
     }
 
     def _constant_prop_error(net, error_str):
@@ -240,7 +240,7 @@ def _constant_prop_pass(block, silence_unexpected_net_warnings=False):
             if isinstance(other_wire, Const):
                 const_wire, other_wire = other_wire, const_wire
 
-            outputs = [two_var_ops[net_checking.op](const_wire.val, other_val)
+            outputs = [two_var_ops[net_checking.op](const_wire.val, other_val) & 0x1
                        for other_val in (0, 1)]
 
             if outputs[0] == outputs[1]:
@@ -259,7 +259,8 @@ def _constant_prop_pass(block, silence_unexpected_net_warnings=False):
             else:
                 output = one_var_ops[net_checking.op](net_checking.args[0].val,
                                                       net_checking.args[0].bitmask)
-            replace_net_with_const(output)
+            # the folded value is truncated to the destination, like the net's result
+            replace_net_with_const(output & net_checking.dests[0].bitmask)
 
     new_wire_src = _ProducerList()
     wire_add_set = set()
